@@ -371,7 +371,8 @@ pub fn gen(rng: &mut Rng, thorough: bool, out: &mut Sink) {
     let nsrc = if thorough { 400 } else { 60 };
     let work = std::env::current_dir().unwrap();
     for v in 0..nsrc {
-        let (fmt, bytes) = match v % 4 {
+        let (fmt, bytes) = match v % 5 {
+            4 => ("tokenizers", crate::c17::hf_zoo(rng, v)),
             0 => ("tokenizers", crate::c17::hf_json(rng, v * 3)),
             1 => ("sentencepiece", crate::c17::sp_model(rng, v)),
             2 => ("tokenizers", crate::c17::hf_json(rng, v)),
